@@ -29,7 +29,9 @@ RULE = (
     "into a fresh BytesIO + trail; (2) reading header_1, payload_1, ... in order from one source returns the original "
     "values and stops exactly at len(lead)+sum; (3) the write-only sink saw only write(bytes-like) calls and the "
     "read-only source only read(int>=0) calls whose sizes sum to the bytes consumed; any other stream access is a "
-    "violation. Non-trivial = >=2 messages of different classes with non-empty lead and trail; distinct by case hash."
+    "violation. Foreign-peer stage: for four flexible classes, two reference-encoded messages back to back that each carry a "
+    "tagged field unknown to the schema version, of 0 .. 16 MiB (varint-width boundaries and block multiples), from a "
+    "BytesIO and a read-only source: both decode to the value, each read ends exactly at the message end, the trail is intact. Non-trivial = >=2 messages of different classes with non-empty lead and trail; distinct by case hash."
 )
 SINKS = ["bytesio", "writeonly", "streamwriter", "buffered_nonseekable", "socket", "queueing_nocopy"]
 SOURCES = ["bytesio", "readonly", "buffered_nonseekable", "socket"]
@@ -400,15 +402,94 @@ def _worker(task):
     return rep
 
 
+FOREIGN_SIZES = (0, 1, 127, 128, 16383, 16384, 65536, 2097151, 2097152, 1 << 20, 1 << 22, 1 << 23, 3 << 22, 1 << 24)
+
+
+def foreign_targets() -> list[str]:
+    """flexible request/response classes: the first two with and the first two without tagged fields of their own"""
+    out, seen = [], {True: 0, False: 0}
+    for cls in _payload_classes():
+        cd = D.describe(cls)
+        if not cd.flexible:
+            continue
+        k = bool(cd.tagged_fields)
+        if seen[k] < 2:
+            seen[k] += 1
+            out.append(cd.path)
+    return out
+
+
+def check_foreign(path: str, size: int, skind: str) -> list[tuple[str, str]]:
+    """Two messages as a NEWER PEER writes them - reference-encoded, each carrying a tagged field this schema version does
+    not know, of `size` bytes - back to back and followed by a trail: both must decode to the value without the unknown
+    field, each read stopping exactly at the message's end (an unknown tagged field is skipped by its size prefix)."""
+    from ..refcodec import UNKNOWN, ref_encode, zero_tree
+
+    cd = D.describe(D.resolve(path))
+    tree = zero_tree(cd)
+    tag = max({f.tag for f in cd.tagged_fields} | {0}) + 1
+    blob = (b"newer-peer-" * (size // 11 + 1))[:size]
+    tree[UNKNOWN] = [(tag, blob)]
+    one = ref_encode(cd, tree)
+    plain = dict(tree)
+    del plain[UNKNOWN]
+    want = to_entity(cd, plain)
+    trail = b"\x07trail"
+    stream = one + one + trail
+    if skind == "readonly":
+        src = ReadOnlySource(stream)
+        pos = lambda: src.consumed  # noqa: E731
+    else:
+        src = io.BytesIO(stream)
+        pos = src.tell
+    out = []
+    try:
+        for i in (1, 2):
+            y = K.entity_reader(cd.cls)(src)
+            if not py_equal(want, y):
+                out.append((f"foreign:stream-value-differs:{skind}", f"{path}, unknown tagged field of {size} bytes, message {i}: read {y!r:.300}, expected {want!r:.300}"))
+                break
+            if pos() != i * len(one):
+                out.append((f"foreign:stream-position:{skind}", f"{path}, unknown tagged field of {size} bytes: after message {i} the source is at {pos()}, "
+                            f"the message ends at {i * len(one)}"))
+                break
+        else:
+            if src.read(len(trail) + 3) != trail:
+                out.append((f"foreign:trail-disturbed:{skind}", f"{path}, unknown tagged field of {size} bytes"))
+    except StreamProtocolViolation as e:
+        out.append((f"foreign:source-protocol:{str(e).split('(')[0].split(' ')[0]}", f"{path}, size {size}, source kind {skind}: {e}"))
+    except Exception as e:
+        out.append((f"foreign:read-raised:{skind}:{K.exc_signature(e)}", f"{path}, unknown tagged field of {size} bytes, source kind {skind}: {e!r:.300}"))
+    return out
+
+
+def _foreign_worker(task):
+    path, size = task
+    rep = Report(prop=ID, level="exploration", rule=RULE)
+    for skind in ("bytesio", "readonly"):
+        rep.evaluations += 1
+        rep.labels["foreign"] += 1
+        rep.nontrivial.add(case_hash(("foreign", path, size, skind)))
+        for sig, msg in check_foreign(path, size, skind):
+            rep.add_failure(Failure(sig, msg, {"foreign": {"class": path, "size": size, "source": skind}}, size))
+    return rep
+
+
 def run(ctx: Ctx) -> Report:
     total = Report(prop=ID, level="exploration", rule=RULE)
     n_total = 4800 if ctx.quick else 16000
     shards = 16
     for rep in pool_map(_worker, [(ctx.subseed("shard", i), n_total // shards) for i in range(shards)]):
         total.merge(rep)
+    sizes = FOREIGN_SIZES if ctx.quick else FOREIGN_SIZES + ((1 << 24) + 1, 1 << 25, 3 << 24)
+    for rep in pool_map(_foreign_worker, [(p, n) for p in foreign_targets() for n in sizes]):
+        total.merge(rep)
     total.assumptions = ["stream kinds are emulations (recording transport, non-seekable raw stream with short reads), not real sockets"]
     return total
 
 
 def replay(case):
+    if "foreign" in case:
+        f = case["foreign"]
+        return check_foreign(f["class"], f["size"], f["source"])
     return check(case)
